@@ -46,7 +46,7 @@ def gen_case(rnd, tier: str, i: Any) -> Dict[str, Any]:
     for r in range(n_ranks):
         fs, ns = first_step, n_steps
         if ragged and r > 0:
-            ns = rnd.randint(1, n_steps)
+            ns = rnd.randint(0, n_steps)              # 0 / 1: a rank that recorded no step, or one (nothing to cut off there)
             fs = first_step + rnd.randint(0, n_steps - ns)
         p = gen_sim.random_params(rnd, tier, rank=r, first_step=fs, n_steps=ns, pre_ops=rnd.choice([1, 2]) if ragged else rnd.choice([0, 1, 2]),
                                   post_ops=rnd.choice([0, 1, 2]), step_gap=rnd.choice([(0,), (0, 1, 1, 7), (7, 30)]))
@@ -148,6 +148,8 @@ def run_case(case: Dict[str, Any], ctx: Any) -> core.CaseResult:
         res.counters["events_dropped"] += n_dropped
         if ld.trimmed:
             res.counters["trimmed_loads"] += 1
+            if any(ld.last_step_start[r] is None for r in models):
+                res.counters["loads_with_a_rank_of_fewer_than_two_steps_beside_a_trimmed_rank"] += 1
         if cfg["inc_last"]:
             res.counters["inc_last_loads"] += 1
         res.nontrivial = n_steps >= 2 and n_dropped > 0 and n_dev_kept > 0
